@@ -906,6 +906,79 @@ def stress(w, mod: Any, gates: Gates, rounds: int, n_threads: int) -> None:
     w.case(("stress", w.shard))
 
 
+SHARED_CONTEXT_SOURCE = '''
+import asyncio
+import icontract
+
+
+@icontract.invariant(lambda self: self.x >= 0)
+class Account:
+    def __init__(self):
+        self.x = 1
+
+    async def wait_for(self, event):
+        await event.wait()
+        return "waited"
+
+    def peek(self):
+        return self.x
+
+    async def transfer(self, event):
+        """Breaks the invariant temporarily; lets the other call finish in between; calls a public method of itself."""
+        self.x = -1
+        try:
+            event.set()
+            await asyncio.sleep(0)
+            await asyncio.sleep(0)
+            return self.peek()
+        finally:
+            self.x = 1
+'''
+
+
+def run_shared_context(w) -> None:
+    """Two calls on different objects whose lifetimes overlap without being nested, in tasks that share ONE context
+    (create_task(..., context=ctx)): the verdict of the judged call is the verdict it has alone."""
+    import contextvars  # pylint: disable=import-outside-toplevel
+    loaded = prog.load_source(SHARED_CONTEXT_SOURCE, w.scratch())
+    mod = loaded.module
+
+    async def alone():
+        return await mod.Account().transfer(asyncio.Event())
+
+    async def shared_context():
+        ctx = contextvars.copy_context()
+        loop = asyncio.get_running_loop()
+        event = asyncio.Event()
+        first = loop.create_task(mod.Account().wait_for(event), context=ctx)
+        await asyncio.sleep(0)
+        second = loop.create_task(mod.Account().transfer(event), context=ctx)
+        res = await asyncio.gather(first, second, return_exceptions=True)
+        return res[1]
+
+    def verdict(coro):
+        try:
+            return "returned {!r}".format(asyncio.run(coro))
+        except BaseException as err:  # pylint: disable=broad-except
+            return "raised {}".format(type(err).__name__)
+
+    try:
+        base = verdict(alone())
+        for tag, make in (("two-tasks-sharing-one-context", shared_context),):
+            res = verdict(make())
+            if res.startswith("returned ") and "Error" in res:
+                res = "raised " + res.split("(")[0].split()[-1]
+            w.count("calls_judged")
+            w.count("calls_overlapping_with_another")
+            w.count("shared_context_schedules")
+            w.case(("shared-context", tag))
+            if res != base:
+                w.violation("C12/verdict-depends-on-the-end-of-a-call-sharing-the-context", "{}: the judged call gave {}, alone it gives {}".format(
+                    tag, res, base), {"shared_context": tag})
+    finally:
+        loaded.unload()
+
+
 def run_import_orders(w) -> None:
     """Child processes (vkit/c12_child.py) import icontract before / after asyncio, or import asyncio only inside the coroutine
     that needs it: a call made in a task while another call on the same object / function is in flight in the task that spawned
@@ -952,6 +1025,8 @@ def run_import_orders(w) -> None:
 def run(w) -> None:
     if w.shard == 3 % w.nshards and __import__("os").environ.get("VERIF_C12_PART") in (None, "imports"):
         run_import_orders(w)
+    if w.shard == 2 % w.nshards and __import__("os").environ.get("VERIF_C12_PART") in (None, "histories", "shared"):
+        run_shared_context(w)
     gates = Gates()
     loaded = prog.load_source(SOURCE, w.scratch(), extra_globals={"GATES": gates})
     mod = loaded.module
@@ -975,6 +1050,9 @@ def run(w) -> None:
 def replay(case, w) -> None:
     if "import_order" in case:
         run_import_orders(w)
+        return
+    if "shared_context" in case:
+        run_shared_context(w)
         return
     gates = Gates()
     loaded = prog.load_source(SOURCE, w.scratch(), extra_globals={"GATES": gates})
